@@ -43,15 +43,28 @@ func startBin(args, env []string, cwd, logPath string, wait time.Duration) (*Bin
 	return startBinLimited(args, env, cwd, logPath, wait, 0)
 }
 
+// startBinLimitedV starts the server with at most vkb kilobytes of address space (ulimit -v).
+func startBinLimitedV(args, env []string, cwd, logPath string, wait time.Duration, vkb int) (*BinSrv, error) {
+	return startBinUlimit(args, env, cwd, logPath, wait, fmt.Sprintf("ulimit -v %d", vkb))
+}
+
 // startBinLimited: nofile > 0 starts the server with that many file descriptors at most (ulimit -n, soft and hard).
 func startBinLimited(args, env []string, cwd, logPath string, wait time.Duration, nofile int) (*BinSrv, error) {
+	ul := ""
+	if nofile > 0 {
+		ul = fmt.Sprintf("ulimit -n %d", nofile)
+	}
+	return startBinUlimit(args, env, cwd, logPath, wait, ul)
+}
+
+func startBinUlimit(args, env []string, cwd, logPath string, wait time.Duration, ulimit string) (*BinSrv, error) {
 	lf, err := os.Create(logPath)
 	if err != nil {
 		return nil, err
 	}
 	cmd := exec.Command(binPath(), args...)
-	if nofile > 0 {
-		cmd = exec.Command("/bin/bash", append([]string{"-c", fmt.Sprintf("ulimit -n %d && exec \"$0\" \"$@\"", nofile), binPath()}, args...)...)
+	if ulimit != "" {
+		cmd = exec.Command("/bin/bash", append([]string{"-c", ulimit + " && exec \"$0\" \"$@\"", binPath()}, args...)...)
 	}
 	cmd.Env = env
 	cmd.Dir = cwd
